@@ -576,7 +576,7 @@ def launch(ctx, exe, tag, ranks, cores, lines, timeout, env_extra=None):
         p = '%s.%d' % (prefix, r)
         trs.append(open(p).read() if os.path.exists(p) else '')
     complete = all(t.rstrip().endswith('#end') for t in trs)
-    return {'tag': tag, 'ranks': ranks, 'cores': cores, 'lines': lines, 'env': env_extra or {}, 'rc': rc, 'err': (out + err)[-700:], 'trs': trs, 'complete': complete}
+    return {'tag': tag, 'ranks': ranks, 'cores': cores, 'lines': lines, 'env': env_extra or {}, 'rc': rc, 'err': (out + err)[-700:], 'err_full': (out + err)[-20000:], 'trs': trs, 'complete': complete}
 
 
 FINDING_CASES = [
@@ -593,10 +593,11 @@ FINDING_CASES = [
 def analyse(ctx, res, run, dist, jdf_edges, from_corpus=False):
     """compare one launch with the model and evaluate the oracles"""
     tag = run['tag']
-    if run['complete'] and run['rc'] != 0 and run['ranks'] > 1 and 'ignal' not in run['err']:
+    if run['complete'] and run['rc'] != 0 and run['ranks'] > 1 and not re.search(r'Process received signal|exited on signal|Segmentation|Aborted', run.get('err_full', run['err'])):
         # every rank executed the whole script and closed its transcript; the non-zero status comes from mpiexec's
         # teardown on an oversubscribed machine (also seen by C37: about 1 launch in 40); counted, not a result
         dist['mpi_nonzero_exit_after_complete_run'] = dist.get('mpi_nonzero_exit_after_complete_run', 0) + 1
+        res.notes.append('launch %s: all %d transcripts complete, mpiexec status %s: %s' % (tag, run['ranks'], run['rc'], ' '.join(run.get('err_full', '')[:600].split())))
     elif not run['complete'] or run['rc'] != 0:
         last = [t.strip().splitlines()[-1] if t.strip() else '<nothing>' for t in run['trs']]
         res.violations.append({'key': 'harness-died:' + tag, 'what': 'the run of the real code (%d ranks, %d cores) ended with status %s before the script was finished; last transcript lines: %s; %s' % (
